@@ -87,6 +87,28 @@ Definition bump_aligned_alloc (A C : Z) (s : state) (alignment size : Z) : state
       | (_, _) => ({| top := old_top; last := old_last |}, RNull)
       end.
 
+(* zix_bump_aligned_alloc as the library's normal build compiles it (-DNDEBUG): assert(size %
+   alignment == 0) is gone, so every size reaches the code below (zix_bump_malloc rounds it up).
+   The alignment asserts are kept as RAbort: a power-of-two alignment >= 8 stays a documented
+   precondition (without the assert a violation is undefined, so such requests stay outside). *)
+Definition bump_aligned_alloc_nd (A C : Z) (s : state) (alignment size : Z) : state * result :=
+  let old_last := last s in
+  let old_top := top s in
+  if negb (alignment >=? min_alignment) then (s, RAbort)                         (* precondition *)
+  else if negb (round_asserts alignment) then (s, RAbort)                        (* precondition *)
+  else
+    let top_addr := wrap (A + top s) in
+    let aligned_top_addr := round_up_multiple top_addr alignment in
+    let offset := wrap (aligned_top_addr - top_addr) in
+    if wrap (top s + offset) >? C then (s, RNull)
+    else
+      let s1 := {| top := wrap (top s + offset); last := last s |} in
+      match bump_malloc A C s1 size with
+      | (s2, RPtr p) => (s2, RPtr p)
+      | (s2, RAbort) => (s2, RAbort)
+      | (_, _) => ({| top := old_top; last := old_last |}, RNull)
+      end.
+
 (* ---- the code before the fix: commits (only used for the *_old_refuted lemmas) ---- *)
 Definition bump_init_old (A : Z) : state :=
   let t := A mod min_alignment in {| top := t; last := t |}.
